@@ -26,6 +26,7 @@ func runC18(c *Ctx) {
 		"C18.2 the resources table is written only by those CAS writers and by the restoration handle",
 		"C18.3 a failing internal step is never reported as success (no nil error returned on an err != nil edge)",
 		"C18.5 the snapshot handler reads only those fields of a subscription subject that the subject's String() — the key under which the publisher caches and shares snapshots — also reads",
+		"C18.6 the watch drops events whose index is not larger than the last one it took from the subscription, and keeps that threshold in the Watch (not in a per-call local): writes committed but not yet dispatched when the watch was created are in the listing and arrive again afterwards",
 		"C18.4 a watch is a subscription to the topic whose registered snapshot handler lists the current resources under a read transaction of the same store; a restore refreshes that topic",
 	}
 	r.NotDecided = []string{"linearizability under real schedules", "raft backend forwarding", "duplicate suppression across Watch.Next calls (observation O9)"}
@@ -118,6 +119,7 @@ func runC18(c *Ctx) {
 
 	checkWatchWiring(c)
 	checkSubjectKeyCoversSnapshotInputs(c)
+	checkWatchThresholdPersists(c)
 }
 
 func checkCASWriter(c *Ctx, f *ssa.Function, table string) {
@@ -484,4 +486,64 @@ func subjectKeyCoverage(c *Ctx, rule, pkgRel, short string, handlers []*ssa.Func
 		}
 	}
 	return n
+}
+
+// C18.6
+func checkWatchThresholdPersists(c *Ctx) {
+	p, r := c.P, c.R
+	f := p.Func("internal/storage/inmem", "(*Watch).nextEvent")
+	if f == nil {
+		r.Unresolve("C18.6", "inmem.(*Watch).nextEvent", "not found")
+		return
+	}
+	recv := f.Params[0]
+	var cmp *ssa.BinOp
+	var other ssa.Value
+	for _, b := range f.Blocks {
+		for _, in := range b.Instrs {
+			bo, ok := in.(*ssa.BinOp)
+			if !ok {
+				continue
+			}
+			switch bo.Op {
+			case token.LEQ, token.LSS, token.GEQ, token.GTR:
+			default:
+				continue
+			}
+			isEvIdx := func(v ssa.Value) bool {
+				a := core.AccessOf(v)
+				return a.LastField() == "Index" && a.Root != ssa.Value(recv)
+			}
+			if isEvIdx(bo.X) && isUint(bo.Y.Type()) {
+				cmp, other = bo, bo.Y
+			} else if isEvIdx(bo.Y) && isUint(bo.X.Type()) {
+				cmp, other = bo, bo.X
+			}
+		}
+	}
+	if cmp == nil {
+		r.Violate("C18.6", "inmem.(*Watch).nextEvent", p.FuncPos(f), "events are taken from the subscription without comparing their index with the last one delivered: writes that were committed but not yet dispatched when the watch was created are delivered again after the initial listing, older versions after newer ones")
+		return
+	}
+	a := core.AccessOf(other)
+	if ld, ok := other.(*ssa.UnOp); ok && ld.Op == token.MUL && a.Root == ssa.Value(recv) && len(a.Fields) > 0 {
+		// and the field is advanced from the event's index
+		adv := false
+		for _, b := range f.Blocks {
+			for _, in := range b.Instrs {
+				if st, ok := in.(*ssa.Store); ok {
+					if fa, ok := st.Addr.(*ssa.FieldAddr); ok && core.FieldObj(fa).Name() == a.LastField() && core.AccessOf(st.Val).LastField() == "Index" {
+						adv = true
+					}
+				}
+			}
+		}
+		if adv {
+			r.Hold("C18.6", "inmem.(*Watch).nextEvent", p.Pos(cmp.Pos()), "threshold kept in Watch."+a.LastField()+" and advanced from each event taken")
+		} else {
+			r.Violate("C18.6", "inmem.(*Watch).nextEvent", p.Pos(cmp.Pos()), "the threshold field is never advanced")
+		}
+		return
+	}
+	r.Violate("C18.6", "inmem.(*Watch).nextEvent", p.Pos(cmp.Pos()), "the threshold the event index is compared with is a local of this call (it starts at zero every time), so nothing is ever dropped across calls: after a listing that showed version 2 of a resource the watch delivers the queued event for version 1")
 }
